@@ -184,8 +184,8 @@ Theorem inclusion_proof_ok t i j : Inv H t -> 1 <= i -> i <= j -> j <= size t ->
 Proof.
   intros I L1 Li Lj. pose proof I as (Lp & _). pose proof (payloads_length t Lp) as PL.
   unfold inclusion_proof.
-  destruct (N.ltb_spec j i); [lia|]. destruct (N.ltb_spec (size t) j); [lia|].
-  destruct (N.eqb_spec j 0); [lia|].
+  destruct (N.eqb_spec i 0); [lia|]. destruct (N.ltb_spec j i); [lia|]. cbn [orb].
+  destruct (N.ltb_spec (size t) j); [lia|].
   rewrite inclusion_loop_ok by (rewrite ?base_top; auto; lia).
   rewrite base_top, app_nil_r, slice_0, N.sub_0_r.
   set (X := firstn (N.to_nat j) (payloads t)).
@@ -194,7 +194,8 @@ Proof.
   rewrite audit_is_honest by lia. reflexivity.
 Qed.
 
-(* a claimed position 0 walks the path of leaf 1 (the generator does not test i >= 1) *)
+(* the inner recursion with a claimed position 0 walks the path of leaf 1 (unreachable since the
+   public InclusionProof rejects i = 0, /repo 172c7ab; kept as a fact about inclusionProof) *)
 Lemma inclusion_loop_i0 t : forall (h : nat) j acc, inclusion_loop t h 0 j acc = inclusion_loop t h 1 j acc.
 Proof.
   induction h as [|h IH]; intros j acc; cbn [inclusion_loop]; [reflexivity|].
